@@ -221,6 +221,11 @@ func (d *e4Dialer) dialRepository(ctx context.Context, kind, address string) (vc
 		return nil, errors.New("unreachable")
 	}
 	if err := d.w.fault("dial"); err != nil {
+		for other := range d.repos {
+			if strings.HasPrefix(address, other+"/") {
+				d.w.hit["dial-nested"]++ // the caller will now try the enclosing repository
+			}
+		}
 		return nil, err
 	}
 	return r, nil
@@ -606,6 +611,33 @@ func (e *e4Run) call(cache string, faults bool, f func(res *Resolver) error) (*s
 	return s, w, err
 }
 
+// callRetry: one resolver (a long-lived process) performs f while repository and I/O faults
+// are injected, then - the faults having stopped - performs it again.
+func (e *e4Run) callRetry(cache string, f func(res *Resolver, attempt int)) (*simrt.Sim, int, bool) {
+	e.round++
+	name := fmt.Sprintf("call%d", e.round)
+	ts := e.c.Tapes
+	cfg := simrt.Config{Sched: ts.Get(name + ".sched"), Misc: ts.Get(name + ".misc"), Fault: ts.Get(name + ".fault"), Strategy: e.sc.Strategy,
+		StickyNum: e.sc.Sticky, PCTDepth: e.sc.PCTDepth, PCTEst: 600, TempDir: filepath.Join(e.dir, "tmp"), MaxSteps: 600000, IOErrPerMille: 15}
+	if e.c.Trace {
+		cfg.TraceMax = 3000
+	}
+	s := simrt.New(cfg)
+	w := &e4World{sc: e.sc, sim: s, faults: true, hit: map[string]int{}}
+	injected := 0
+	s.Run(func() {
+		res := NewResolver(filepath.Join(e.dir, cache), w.dialer(), nil)
+		f(res, 0)
+		injected = totalFaults(s)
+		w.faults, s.Cfg.IOErrPerMille = false, 0
+		f(res, 1)
+	})
+	e.c.Sim(s, simcheck.ScenarioHash(e.sc), e.sc.Strategy)
+	// the signature of known finding K2: the dial of a repository nested below another
+	// repository's directory failed, so discovery moved on to the enclosing repository
+	return s, injected, w.hit["dial-nested"] > 0
+}
+
 // callN runs n resolvers (as n dawn processes would) concurrently on one cache.
 func (e *e4Run) callN(cache string, n int, f func(i int, res *Resolver)) (*simrt.Sim, *e4World, error) {
 	e.round++
@@ -724,6 +756,34 @@ func c10Exec(scAny any, c *simcheck.Ctx) *simcheck.Violation {
 		// bounded liveness: once faults stop, one more call succeeds
 		if v := check("after faults stopped", sc.Root, "cacheF", false); v != nil {
 			return v
+		}
+		// ... also on the resolver that met the faults (a long-lived process that retries)
+		var got [2]map[string]string
+		var errs [2]error
+		s, injected, k2 := e.callRetry("cacheG", func(res *Resolver, attempt int) {
+			got[attempt], errs[attempt] = BuildList(context.Background(), sc.config(sc.Root), res)
+		})
+		if v := simFailure(s); v != nil {
+			v.Msg = "one resolver, faults then none: " + v.Msg
+			return v
+		}
+		if injected > 0 {
+			c.St.Count("same_resolver_retries_after_faults", 1)
+		}
+		k2class := func(class string) string {
+			if k2 {
+				return "nested-repository-misrouted-after-dial-failure"
+			}
+			return class
+		}
+		if errs[1] != nil {
+			if resolvable {
+				return simcheck.V(k2class("buildlist-error"), "a resolver that met %d injected faults (first attempt: %v) was asked again after the faults had stopped and still fails: %v", injected, errs[0], errs[1])
+			}
+		} else if !resolvable {
+			return simcheck.V("buildlist-accepts-missing", "a resolver retrying after injected faults resolved a universe with a dangling requirement")
+		} else if mapString(got[1]) != mapString(want) {
+			return simcheck.V(k2class("buildlist-wrong"), "a resolver that met %d injected faults (first attempt: %v) was asked again after the faults had stopped and resolved {%s}, not the minimal-version-selection solution {%s}", injected, errs[0], mapString(got[1]), mapString(want))
 		}
 		return nil
 	}
@@ -972,6 +1032,12 @@ func c11Gen(r *rand.Rand, tier string) any {
 			sc.Ops = append(sc.Ops, e4Op{Op: "get", Query: q})
 		}
 	}
+	switch r.IntN(6) {
+	case 0:
+		sc.Procs = 2 + r.IntN(2) // every operation is performed by this many processes at once, on one cache
+	case 1:
+		sc.Faults = true // every operation is first attempted under faults, then again by the same resolver
+	}
 	return sc
 }
 
@@ -1011,7 +1077,77 @@ func c11Exec(scAny any, c *simcheck.Ctx) *simcheck.Violation {
 		})
 		return got, err, simFailure(s)
 	}
+	do := func(op e4Op, root []e4Req, res *Resolver) (map[string]project.RequirementConfig, error) {
+		switch op.Op {
+		case "tidy":
+			return Tidy(context.Background(), sc.config(root), res)
+		case "upgrade-all":
+			return UpgradeAll(context.Background(), sc.config(root), res)
+		default:
+			return Get(context.Background(), sc.config(root), res, op.Query)
+		}
+	}
 	apply := func(op e4Op, root []e4Req) (map[string]project.RequirementConfig, error, *simcheck.Violation) {
+		if sc.Procs > 1 {
+			// several dawn processes perform the same operation at the same time on one cache:
+			// each must arrive at what one alone arrives at
+			outs := make([]map[string]project.RequirementConfig, sc.Procs)
+			errs := make([]error, sc.Procs)
+			s, _, _ := e.callN("cache", sc.Procs, func(i int, res *Resolver) { outs[i], errs[i] = do(op, root, res) })
+			if v := simFailure(s); v != nil {
+				return nil, nil, v
+			}
+			c.St.Count("operations_by_concurrent_processes", 1)
+			var alone map[string]project.RequirementConfig
+			s2, _, errAlone := e.call("cache", false, func(res *Resolver) error {
+				var err error
+				alone, err = do(op, root, res)
+				return err
+			})
+			if v := simFailure(s2); v != nil {
+				return nil, nil, v
+			}
+			for i := range outs {
+				if (errs[i] == nil) != (errAlone == nil) {
+					return nil, nil, simcheck.V("concurrent-result-differs", "%s %s by %d processes at once on one cache: process %d ended with error %v, a process alone with %v", op.Op, op.Query, sc.Procs, i, errs[i], errAlone)
+				}
+				if errAlone == nil && reqsString(outs[i]) != reqsString(alone) {
+					return nil, nil, simcheck.V("concurrent-result-differs", "%s %s by %d processes at once on one cache: process %d arrived at {%s}, a process alone at {%s}", op.Op, op.Query, sc.Procs, i, reqsString(outs[i]), reqsString(alone))
+				}
+			}
+			return alone, errAlone, nil
+		}
+		if sc.Faults {
+			var outs [2]map[string]project.RequirementConfig
+			var errs [2]error
+			s, injected, k2 := e.callRetry("cacheT", func(res *Resolver, attempt int) { outs[attempt], errs[attempt] = do(op, root, res) })
+			k2class := "retry-after-fault-differs"
+			if k2 {
+				k2class = "nested-repository-misrouted-after-dial-failure"
+			}
+			if v := simFailure(s); v != nil {
+				return nil, nil, v
+			}
+			var alone map[string]project.RequirementConfig
+			s2, _, errAlone := e.call("cache", false, func(res *Resolver) error {
+				var err error
+				alone, err = do(op, root, res)
+				return err
+			})
+			if v := simFailure(s2); v != nil {
+				return nil, nil, v
+			}
+			if injected > 0 {
+				c.St.Count("same_resolver_retries_after_faults", 1)
+			}
+			if (errs[1] == nil) != (errAlone == nil) {
+				return nil, nil, simcheck.V(k2class, "%s %s: a resolver that met %d injected faults (first attempt: %v) tried again after they had stopped and ended with error %v; a fresh resolver ends with %v", op.Op, op.Query, injected, errs[0], errs[1], errAlone)
+			}
+			if errAlone == nil && reqsString(outs[1]) != reqsString(alone) {
+				return nil, nil, simcheck.V(k2class, "%s %s: a resolver that met %d injected faults (first attempt: %v) tried again after they had stopped and arrived at {%s}; a fresh resolver arrives at {%s}", op.Op, op.Query, injected, errs[0], reqsString(outs[1]), reqsString(alone))
+			}
+			return alone, errAlone, nil
+		}
 		var out map[string]project.RequirementConfig
 		s, _, err := e.call("cache", false, func(res *Resolver) error {
 			var err error
